@@ -981,6 +981,31 @@ theorem sq_object_digitize_textize (a : Alphabet) (o : Sq.SqObj) (h : o.Inv) :
       ({ o with digital := false, res := o.res.map a.symAt } : Sq.SqObj).Inv) :=
   ⟨Sq.SqObj.digitize_spec a o h, fun hd hv => Sq.SqObj.textize_spec a o h hd hv⟩
 
+/-- **Digitize then Textize on an object**: for a well-formed alphabet and valid text the round trip gives the canonical spelling
+    of every character, the SAME `ss` / `xr` markup, `start`, `end`, and an allocation raised to at least `n+2` -/
+theorem sq_object_roundtrip (a : Alphabet) (hw : a.WF) (o : Sq.SqObj) (h : o.Inv) (hd : o.digital = false)
+    (hv : o.res.all a.cIsValid = true) :
+    (Sq.SqObj.digitize a o).bind (fun r => Sq.SqObj.textize a r.2) =
+      some (.ok, { o with res := o.res.map (fun c => a.symAt (a.inmapAt c)), salloc := o.dsz, mcap := o.dsz }) := by
+  obtain ⟨e1, i1⟩ := (Sq.SqObj.digitize_spec a o h).2.2 hd hv
+  rw [e1, Option.bind_some]
+  have hcodes : ∀ x ∈ (o.digitized a).res, x < a.sym.length := by
+    intro x hx
+    have hx' : x ∈ o.res.map a.inmapAt := hx
+    obtain ⟨c, hc, rfl⟩ := List.mem_map.mp hx'
+    have := List.all_eq_true.mp hv c hc
+    rw [hw.2.2.1]
+    unfold cIsValid at this
+    simp only [Bool.and_eq_true, decide_eq_true_eq] at this
+    exact this.2
+  rw [(Sq.SqObj.textize_spec a (o.digitized a) i1 rfl hcodes).1]
+  simp [Sq.SqObj.digitized, hd, List.map_map, Function.comp_def]
+
+example :
+    let o : Sq.SqObj := { digital := false, res := str "acgu", salloc := 5, mcap := 5, ss := some (str "<..>"), xr := [str "1234"], start := 1, stop := 4 }
+    (Sq.SqObj.digitize G.dna o).bind (fun r => Sq.SqObj.textize G.dna r.2) =
+      some (.ok, { o with res := str "ACGT", salloc := 6, mcap := 6 }) := by decide +kernel
+
 /-- **`esl_sq_ReverseComplement` and the markup**: in text mode (always; eslEINVAL when a non-nucleic character became `N`) and
     in digital mode with a complement table, the sequence becomes its reverse complement (same length), `ss` is NULL, ALL extra
     residue markup is dropped (`nxr = 0`: c71354f), `start`/`end` are swapped, the allocation is unchanged; a digital alphabet
